@@ -3,7 +3,7 @@
 #include "exh.h"
 
 /* ---- alphabet ------------------------------------------------------------------------------------------ */
-enum { K_MOD, K_UNDO, K_REDO, K_W, K_WPART, K_WOTHER, K_EBANG, K_SWITCH, K_EXT };
+enum { K_MOD, K_UNDO, K_REDO, K_W, K_WPART, K_WOTHER, K_EBANG, K_SWITCH, K_EXT, K_W_MOD, K_MOD_W, K_EBANG_MOD };
 static const struct { const char *name, *bytes; int kind; } ops[] = {
 	{"1d", "1d\n", K_MOD},
 	{"$a|x|.", "$a\nx\n.\n", K_MOD},
@@ -27,6 +27,10 @@ static const struct { const char *name, *bytes; int kind; } ops[] = {
 	{"b! 2", "b! 2\n", K_SWITCH},
 	{"e! f2", "e! f2\n", K_SWITCH},
 	{"b! 1", "b! 1\n", K_SWITCH},
+	/* several commands on one line: the save point and the edit share one top-level command */
+	{"w|1s/^/y/", "w|1s/^/y/\n", K_W_MOD},
+	{"1s/^/y/|w", "1s/^/y/|w\n", K_MOD_W},
+	{"e!|1s/^/y/", "e!|1s/^/y/\n", K_EBANG_MOD},
 	{"e f3", "e f3\n", K_SWITCH},
 	{"b 3", "b 3\n", K_SWITCH},
 };
@@ -278,6 +282,34 @@ static void pre_state(void)
 		m->texts[0] = strdup(t);
 		m->n = 1;
 		m->idx = m->saved_idx = 0;
+	} else if (kind == K_W_MOD || kind == K_EBANG_MOD) {
+		/* first the save point (whole write, or reload) at the current position, then the modification */
+		struct vfile *vf = vfs_find(cur);
+		if (kind == K_EBANG_MOD && vf && vf->exists && m->idx + 1 < MAXT) {
+			m->idx++;
+			m->texts[m->idx] = strdup(m->snapshot);	/* the reloaded file content */
+			m->n = m->idx + 1;
+			m->saved_idx = m->idx;
+		} else if (kind == K_W_MOD && !strstr(out, "failed") && strstr(out, "[w]")) {
+			m->saved_idx = m->idx;
+		}
+		if (strcmp(t, m->texts[m->idx]) && m->idx + 1 < MAXT) {
+			if (m->saved_idx > m->idx)
+				m->saved_idx = -1;
+			m->idx++;
+			m->texts[m->idx] = strdup(t);
+			m->n = m->idx + 1;
+		}
+	} else if (kind == K_MOD_W) {
+		if (nvx_splices > 0 && m->idx + 1 < MAXT) {
+			if (m->saved_idx > m->idx)
+				m->saved_idx = -1;
+			m->idx++;
+			m->texts[m->idx] = strdup(t);
+			m->n = m->idx + 1;
+		}
+		if (!strstr(out, "failed") && strstr(out, "[w]"))
+			m->saved_idx = m->idx;
 	} else if (kind == K_MOD || kind == K_EBANG) {
 		struct mbuf *pm = m_find(pre_path);
 		if (nvx_splices > 0 && pm && pm == m && m->idx + 1 < MAXT) {
